@@ -28,7 +28,11 @@ def extra(ex, ck):
     data = b"a\nb\nc\nd\n"
     jobs = [("N", []), ("Y", []), ("YNNY", []), ("YNNNNNNNNNNN", []), ("N", ["--strategy", "check-only"]),
             ("Y", ["--strategy", "check-only"]), ("YYY", ["--strategy", "minimize-around"]), ("N", ["-c"]),
-            ("YN", ["--strategy=minimize-balanced", "-c"]), ("Y", ["--strategy", "check-only", "--testcase"])]
+            ("YN", ["--strategy=minimize-balanced", "-c"]), ("Y", ["--strategy", "check-only", "--testcase"]),
+            # check-only requested in every spelling argparse accepts, before / after other options
+            ("YYYY", ["--strategy=check-only"]), ("YYYY", ["--strat", "check-only"]), ("NYYY", ["--strateg=check-only"]),
+            ("YYYY", ["-c", "--strategy", "check-only"]), ("YYYY", ["--tempdir", "td", "--strategy", "check-only"]),
+            ("YYYY", ["--st", "check-only", "-v"])]
     jobs = [j for j in jobs if "--testcase" not in j[1]]
     with ThreadPoolExecutor(8) as pool:
         results = list(pool.map(lambda j: run_lithium(data, j[0], j[1]), jobs))
@@ -38,7 +42,7 @@ def extra(ex, ck):
         tests = [x for x in res["log"] if x["ev"] == "test"]
         first = tests[0]["ans"] if tests else None
         later_yes = any(t["ans"] == "Y" for t in tests[1:])
-        check_only = "check-only" in options
+        check_only = any("check-only" in o for o in options)
         bad = []
         if first == "N" or check_only:
             if len(tests) != 1:
